@@ -782,6 +782,25 @@ class TlWorld(HistoryWorld):
             if not ok or again != wire:
                 self.V(ctx, 'bytes-differ', 'serialize-again', self._first_suspect(c, value), 'serialising the same %s value a second time gave %s' % (c.name, 'other bytes' if ok else repr(again)))
                 return
+            # the other argument forms of the same call: the constructor given by name, and the bare form (no constructor id) in
+            # which the object would travel inside another one
+            ok, by_name = call(sch.serialize, c.name, value)
+            if not ok or by_name != wire:
+                self.V(ctx, 'bytes-differ', 'serialize-by-name', self._first_suspect(c, value), 'serialize(%r, value) gave %s' % (c.name, 'other bytes than serialize(schema, value)' if ok else repr(by_name)))
+                return
+            ok, bare = call(sch.serialize, lsch, value, False)
+            if not ok or bare != wire[4:]:
+                self.V(ctx, 'bytes-differ', 'serialize-bare', self._first_suspect(c, value), 'serialize(..., boxed=False) of %s is not the boxed encoding without its constructor id' % c.name)
+                return
+            status, res, steps = metered(PARSE_BUDGET + 40 * len(wire), sch.deserialize, wire[4:], False, lsch.args)
+            ctx.evaluated(3)
+            ctx.tick(steps)
+            okb = status == 'ok' and isinstance(res, tuple) and len(res) == 2 and isinstance(res[0], dict)
+            if not okb or norm(ref, c.result, dict(res[0], **{'@type': c.name})) != want or res[1] != len(wire) - 4:
+                self.V(ctx, 'parse-value-differs', 'deserialize-bare', self._first_suspect(c, value), '%s: parsing the bare form (boxed=False, args of the constructor) %s'
+                       % (c.name, 'did not return' if not okb else 'gave another value or consumed %r of %d bytes' % (res[1], len(wire) - 4)))
+                return
+            ctx.probe('bare-and-by-name-argument-forms')
         _scramble(val)
         ctx.probe('receiver-edits-the-parsed-value-then-the-frame-arrives-again')
         status, res, steps = metered(PARSE_BUDGET + 40 * len(wire), sch.deserialize, wire)
